@@ -9,7 +9,7 @@ EXTENDS Notation, Json
 CONSTANTS Emit, MaxLen, MaxN
 VARIABLE s
 
-Kinds == {"valid", "invalid", "unfetchable"}
+Kinds == {"valid", "invalid", "unfetchable", "nilOutcome"}
 Listings == UNION {[1..n -> Kinds] : n \in 0..MaxLen}
 (* page-size sequences: every composition of n into positive parts, each optionally with one empty page inserted *)
 RECURSIVE Sum(_)
@@ -19,13 +19,16 @@ InsertAt(sq, p, x) == [k \in 1..(Len(sq) + 1) |-> IF k < p THEN sq[k] ELSE IF k 
 Pagings(n) == Comps(n) \cup UNION {{InsertAt(c, p, 0) : p \in {1, (Len(c) \div 2) + 1, Len(c) + 1}} : c \in Comps(n)}
 
 PagingsF == [n \in 0..MaxLen |-> Pagings(n)]      \* evaluated once
-Mk(l, p, n, ref, skip) == [listing |-> l, pages |-> p, n |-> n, ref |-> ref, skip |-> skip]
+Mk(l, p, n, ref, skip) == [listing |-> l, pages |-> p, n |-> n, ref |-> ref, skip |-> skip, listErr |-> FALSE]
 Edge == {Mk(l, <<Len(l)>>, n, ref, skip) : l \in {<<>>, <<"valid">>, <<"invalid", "valid">>}, n \in {-1, 0, 1, 2},
-                                           ref \in {"tag", "digestMatch", "digestMismatch", "noTagNoDigest", "unparsable"}, skip \in BOOLEAN}
+                                           ref \in {"tag", "digestMatch", "digestMismatch", "noTagNoDigest", "unparsable", "unresolvable"}, skip \in {"yes", "no", "error"}}
 
 (* nested quantifiers instead of one big set: TLC enumerates without building (and de-duplicating) the set *)
 Init == \/ \E l \in Listings : \E p \in PagingsF[Len(l)] : \E n \in 1..MaxN : \E ref \in {"tag", "digestMatch"} :
-             s = VStart(Mk(l, p, n, ref, FALSE))
+             s = VStart(Mk(l, p, n, ref, "no"))
+        \* the repository fails at the end of the listing (short listings, all pagings)
+        \/ \E l \in {x \in Listings : Len(x) <= 3} : \E p \in PagingsF[Len(l)] : \E n \in 1..MaxN :
+             s = VStart([Mk(l, p, n, "tag", "no") EXCEPT !.listErr = TRUE])
         \/ \E e \in Edge : s = VStart(e)
 Next == s.pc # "done" /\ s' = VStep(s)
 Spec == Init /\ [][Next]_s
@@ -34,11 +37,13 @@ Done == s.pc = "done"
 FetchIdx == CallsOf(s, "Fetch")
 Inv_C10 == Done =>
   /\ (s.verdict = "success" <=> D_VerifySucceeds(s.in))
-  /\ (s.verdict = "success" /\ ~s.in.skip =>
+  /\ (s.verdict = "success" /\ s.in.skip = "no" =>
         /\ s.retDesc = "resolved" /\ s.outcomes = <<FirstValid(s.in)>>
         /\ FetchIdx = [k \in 1..FirstValid(s.in) |-> k] /\ CallsOf(s, "Verify") = FetchIdx)
-  /\ (s.in.skip /\ s.in.n > 0 => s.calls = <<[c |-> "SkipVerify", k |-> 0]>>)
-  /\ (s.in.skip => Len(FetchIdx) = 0 /\ Len(CallsOf(s, "Resolve")) = 0 /\ Len(CallsOf(s, "List")) = 0)
+  /\ (s.in.skip # "no" /\ s.in.n > 0 => s.calls = <<[c |-> "SkipVerify", k |-> 0]>>)
+  /\ (s.in.skip # "no" => Len(FetchIdx) = 0 /\ Len(CallsOf(s, "Resolve")) = 0 /\ Len(CallsOf(s, "List")) = 0)
+  \* a failure never hands out a descriptor
+  /\ (s.verdict = "fail" => s.retDesc = "none")
 (* in every state: never more than N fetched, fetches in listing order, nothing after a success *)
 Inv_Bounded ==
   /\ s.processed <= Max(s.in.n, 0) /\ Len(FetchIdx) <= Max(s.in.n, 0)
@@ -46,6 +51,6 @@ Inv_Bounded ==
   /\ (s.succeeded > 0 => Len(FetchIdx) = s.succeeded)
 Prop_ProcessedMonotone == [][s'.processed >= s.processed /\ s'.processed <= s.processed + 1]_s
 
-NonTrivial(in) == Len(in.listing) > 1 \/ in.n <= 0 \/ in.skip \/ ~RefOK(in)
+NonTrivial(in) == Len(in.listing) > 1 \/ in.n <= 0 \/ in.skip # "no" \/ ~RefOK(in) \/ in.listErr
 Inv_Emit == (Emit /\ Done) => PrintT("CASE " \o ToJson([in |-> s.in, exp |-> VObs(s), why |-> s.why, nt |-> NonTrivial(s.in)]))
 =============================================================================
